@@ -20,7 +20,6 @@ Supports expressions like:
 import ast
 import re
 import statistics
-import types
 import warnings
 from datetime import date as date_type
 from typing import Any, Dict, List, Optional, Set, Callable, Union
@@ -922,13 +921,7 @@ class TransactionEvaluator:
         raise ExpressionError(f"Cannot evaluate node type: {type(node).__name__}")
 
     def _eval_Expression(self, node: ast.Expression) -> Any:
-        result = self.evaluate(node.body)
-        if isinstance(result, types.GeneratorType):
-            # A bare generator expression is only useful as an argument of
-            # sum()/any()/next(); as the value of a whole expression it would leak a
-            # lazy generator object (and its repr) to callers. Materialize it.
-            result = list(result)
-        return result
+        return self.evaluate(node.body)
 
     def _eval_Constant(self, node: ast.Constant) -> Any:
         return node.value
@@ -1211,24 +1204,24 @@ class TransactionEvaluator:
         if func_name == 'sum':
             if len(node.args) < 1 or len(node.args) > 2:
                 raise ExpressionError("sum() requires 1 or 2 arguments")
-            iterable = self.evaluate(node.args[0])
+            iterable = self._eval_iterable_arg(node.args[0])
             start = self.evaluate(node.args[1]) if len(node.args) == 2 else 0
             return sum(iterable, start)
 
         if func_name == 'any':
             if len(node.args) != 1:
                 raise ExpressionError("any() requires exactly 1 argument")
-            return any(self.evaluate(node.args[0]))
+            return any(self._eval_iterable_arg(node.args[0]))
 
         if func_name == 'all':
             if len(node.args) != 1:
                 raise ExpressionError("all() requires exactly 1 argument")
-            return all(self.evaluate(node.args[0]))
+            return all(self._eval_iterable_arg(node.args[0]))
 
         if func_name == 'next':
             if len(node.args) < 1 or len(node.args) > 2:
                 raise ExpressionError("next() requires 1 or 2 arguments")
-            iterator = self.evaluate(node.args[0])
+            iterator = self._eval_iterable_arg(node.args[0])
             if len(node.args) == 2:
                 default = self.evaluate(node.args[1])
                 return next(iterator, default)
@@ -1236,12 +1229,12 @@ class TransactionEvaluator:
 
         if func_name == 'min':
             if len(node.args) == 1:
-                return min(self.evaluate(node.args[0]))
+                return min(self._eval_iterable_arg(node.args[0]))
             return min(self.evaluate(arg) for arg in node.args)
 
         if func_name == 'max':
             if len(node.args) == 1:
-                return max(self.evaluate(node.args[0]))
+                return max(self._eval_iterable_arg(node.args[0]))
             return max(self.evaluate(arg) for arg in node.args)
 
         func = self.ctx.get_function(func_name)
@@ -1316,9 +1309,22 @@ class TransactionEvaluator:
         Used by sum(), any(), next(), len() etc.
         Returns a generator that yields values.
         """
+        # Only sum()/any()/all()/next()/min()/max() consume a generator lazily (see
+        # _eval_iterable_arg). Anywhere else a generator object would escape the
+        # evaluator - stored in a list, or stringified as '<generator object ... at 0x...>'
+        # by trim()/tags/fields - so evaluate it to a list there.
+        return list(self._lazy_generator(node))
+
+    def _lazy_generator(self, node: ast.GeneratorExp):
         def generator():
             yield from self._generator_helper(node.generators, 0, node.elt)
         return generator()
+
+    def _eval_iterable_arg(self, node: ast.AST) -> Any:
+        """Evaluate the iterable argument of sum()/any()/all()/next()/min()/max()."""
+        if isinstance(node, ast.GeneratorExp):
+            return self._lazy_generator(node)
+        return self.evaluate(node)
 
     def _generator_helper(
         self,
